@@ -18,6 +18,15 @@ theorem QM.bind_apply {α β : Type} (x : QM G α) (f : α → QM G β) (g : G) 
   | error e => rfl
   | ok p => cases p; rfl
 
+theorem QM.map_apply {α β : Type} (f : α → β) (x : QM G α) (g : G) :
+    (f <$> x) g = (match x g with | .ok (a, g') => .ok (f a, g') | .error e => .error e) := by
+  show (StateT.map f x) g = _
+  unfold StateT.map
+  show (x g >>= _) = _
+  cases x g with
+  | error e => rfl
+  | ok p => cases p; rfl
+
 theorem QM.pure_apply {α : Type} (a : α) (g : G) : (pure a : QM G α) g = .ok (a, g) := rfl
 theorem liftE_ok {α : Type} (a : α) (g : G) : (liftE (.ok a) : QM G α) g = .ok (a, g) := rfl
 theorem liftE_error {α : Type} (e : Err) (g : G) : (liftE (.error e) : QM G α) g = .error e := rfl
